@@ -94,6 +94,27 @@ theorem context_in_traced (f : Fn) (c : Ctx) (w : World) :
 theorem context_in_traced_scoped (f : Fn) (c : Ctx) (w : World) (s : Nat) (hs : c.state = some s) :
     (tracedEnter f c w).1.state = c.state := by simp [tracedEnter, hs]
 
+/-- C18.context_in (task group): a task the function spawns through `ctx.spawn` joins the **caller's** task group, for
+`wrap_async` and for `traced` (whose scope is a synchronous one and opens no group of its own): it is awaited by the
+caller's scope, not by the wrapper – the call returns while the task is still running. -/
+theorem spawn_joins_callers_group (id name : Nat) (doc : Option Nat) (b : Behaviour) (a : Nat) (c : Ctx) (w : World)
+    (hb : ∀ a c w, (b a c w).2.2.spawns = w.spawns) :
+    let f : Fn := { id := id, name := name, doc := doc, run := spawning b }
+    (callWrapAsync f a c w).2.2.spawns = w.spawns ++ [c.other] ∧
+    (callTraced f a c w).2.2.spawns = w.spawns ++ [c.other] := by
+  have hrec : ∀ (w : World) (c : Ctx) (r : Rec), (record w c r).spawns = w.spawns := by
+    intro w c r
+    simp only [record]
+    split
+    · rfl
+    · split <;> rfl
+  have hfin : ∀ (w : World) (n : Nat), (finish w n).spawns = w.spawns := by
+    intro w n
+    simp only [finish]
+    split <;> rfl
+  refine ⟨by simp [callWrapAsync, spawning, hb], ?_⟩
+  simp [callTraced, spawning, hb, hrec, hfin, tracedEnter]
+
 /-! ## context not out -/
 
 /-- C18.context_not_out (asynchronous): whatever the function does to the context it runs in – enter blocks it never
